@@ -1,6 +1,7 @@
 import AlgopyVerif.Proofs.NthDeriv
 import AlgopyVerif.Proofs.NthPiecewise
 import AlgopyVerif.Proofs.NthErf
+import AlgopyVerif.Proofs.NthLegendre
 import AlgopyVerif.Proofs.SpecialFns
 /-!
 # C16 — closed-form n-th derivatives are the true derivatives
@@ -17,9 +18,11 @@ proved from "order 0 is `f`, order `n+1` is the derivative of order `n`"
 Proved: `exp, exp2, expm1, log, log2/log10 (any base), log1p, sqrt, square, negative,
 reciprocal, sin, cos, sinh, cosh, arctanh`; `gammaln/psi/polygamma` and `hyperu` relative to
 the first-order relations of their SciPy leaves (Mathlib has no polygamma / Tricomi U).
-Not yet proved (modelled in exact Gaussian-rational arithmetic and tied by correspondence +
-contour-integral oracle): `arctan, arcsin, arccos, arcsinh, arccosh` (Legendre / complex
-closed forms).  `erf, erfi` (finite sums): `erf_nth`, `erfi_nth` — for the concrete functions
+The closed forms that go through complex numbers are evaluated by the model in `Cx K` (pairs; Gaussian
+rationals in the driver) and interpreted in `ℂ` for the theorems: `arctan_nth` (partial fractions over `x ∓ i`),
+`arcsinh_nth`, `arcsin_nth`, `arccos_nth`, `arccosh_nth` (Legendre polynomials by Bonnet's recurrence exactly as
+`eval_legendre` is modelled; the derivative identity `(1-X²)P_n' = (n+1)(X P_n - P_{n+1})` is proved from the
+recurrence alone, `Proofs/NthLegendre.lean`).  `erf, erfi` (finite sums): `erf_nth`, `erfi_nth` — for the concrete functions
 `c ∫₀ˣ exp(∓s²) ds` and any `c` (`c = 2/√π` is erf / erfi), through the polynomial recursion
 `R₀ = 1, R_{N+1} = R_N' ∓ 2 X R_N` and its explicit coefficients (`Proofs/NthErf.lean`).  The piecewise functions away from their jumps / kinks:
 `step_nth` (every function that is constant near `x`: `rint, fix, floor, ceil, trunc, sign`), with the instances
@@ -142,6 +145,46 @@ theorem hyperu_nth (a : ℝ) (u : ℕ → ℝ → ℝ) (S : Set ℝ) (hS : IsOpe
   simpa [negOnePow, pochK] using this
 
 /-! non-vacuity: the closed forms on concrete rationals -/
+/-- **`arctan`**: every order, every point -/
+theorem arctan_nth (n : ℕ) (x : ℝ) : iteratedDeriv n Real.arctan x = dArctan (Real.arctan x) x n := by
+  have := iteratedDeriv_of_chain univ isOpen_univ (fun n y => dArctan (Real.arctan y) y n)
+    (fun n x _ => chain_arctan n x) n x (mem_univ x)
+  simpa [dArctan] using this
+
+/-- **`arcsinh`**: every order, every point; leaf `r = 1/sqrt(1+x²)` -/
+theorem arcsinh_nth (n : ℕ) (x : ℝ) :
+    iteratedDeriv n Real.arsinh x = dArcsinh (Real.arsinh x) x (Real.sqrt (1 + 1 * x ^ 2))⁻¹ n := by
+  have := iteratedDeriv_of_chain univ isOpen_univ (fun n y => dArcsinh (Real.arsinh y) y (rR 1 1 y) n)
+    (fun n x _ => chain_arcsinh n x) n x (mem_univ x)
+  simpa [dArcsinh, rR] using this
+
+/-- **`arcsin`** on `(-1, 1)`; leaf `r = 1/sqrt(1-x²)` -/
+theorem arcsin_nth (n : ℕ) (x : ℝ) (hx : x ∈ Ioo (-1:ℝ) 1) :
+    iteratedDeriv n Real.arcsin x = dArcsin (Real.arcsin x) x (Real.sqrt (1 + (-1) * x ^ 2))⁻¹ n := by
+  have := iteratedDeriv_of_chain (Ioo (-1:ℝ) 1) isOpen_Ioo (fun n y => dArcsin (Real.arcsin y) y (rR 1 (-1) y) n)
+    (fun n x hx => chain_arcsin n x hx.1 hx.2) n x hx
+  simpa [dArcsin, rR] using this
+
+/-- **`arccos`** on `(-1, 1)`: order 0 is `arccos x`, higher orders are the negated `arcsin` closed forms -/
+theorem arccos_nth (n : ℕ) (x : ℝ) (hx : x ∈ Ioo (-1:ℝ) 1) :
+    iteratedDeriv n Real.arccos x
+      = if n = 0 then Real.arccos x else -dArcsin 0 x (Real.sqrt (1 + (-1) * x ^ 2))⁻¹ n := by
+  have := iteratedDeriv_of_chain (Ioo (-1:ℝ) 1) isOpen_Ioo
+    (fun n y => if n = 0 then Real.arccos y else -dArcsin 0 y (rR 1 (-1) y) n)
+    (fun n x hx => by
+      have := chain_arccos n x hx.1 hx.2
+      simpa using this) n x hx
+  simpa [rR] using this
+
+/-- **`arccosh`** on `(1, ∞)`; leaf `r = 1/sqrt(x²-1)` -/
+theorem arccosh_nth (n : ℕ) (x : ℝ) (hx : 1 < x) :
+    iteratedDeriv n Real.arcosh x = dArccosh (Real.arcosh x) x (Real.sqrt (-1 + 1 * x ^ 2))⁻¹ n := by
+  have := iteratedDeriv_of_chain (Ioi (1:ℝ)) isOpen_Ioi (fun n y => dArccosh (Real.arcosh y) y (rR (-1) 1 y) n)
+    (fun n x hx => chain_arccosh n x hx) n x hx
+  simpa [dArccosh, rR] using this
+
+example : dArctan (K := ℚ) 0 1 3 = 1/2 := by decide +kernel
+
 /-- **`erf`**: every order, every point; `erfC c = fun y => c ∫₀ʸ exp(-s²) ds` -/
 theorem erf_nth (c : ℝ) (n : ℕ) (x : ℝ) :
     iteratedDeriv n (erfC c) x = dErf (erfC c x) (c * Real.exp (-(x * x))) x n := by
@@ -194,5 +237,38 @@ theorem absolute_nth (x : ℝ) (hx : x ≠ 0) (n : ℕ) :
   | 0 => rfl
   | 1 => rfl
   | n + 2 => rfl
+
+/-- `clip(a_min, a_max, ·)` away from the two kinks: order 0 is the clipped value, order 1 is the indicator of
+the interval (`nthderiv.clip`: `(x >= a_min) * (x <= a_max)`), higher orders vanish -/
+theorem clip_nth (lo hi x : ℝ) (hlh : lo ≤ hi) (h1 : x ≠ lo) (h2 : x ≠ hi) (n : ℕ) :
+    iteratedDeriv n (fun y : ℝ => min (max y lo) hi) x
+      = dClip (min (max x lo) hi) (if lo ≤ x ∧ x ≤ hi then 1 else 0) n := by
+  rcases lt_or_gt_of_ne h1 with hlo | hlo
+  · rw [iteratedDeriv_of_locally_const _ x (clip_locally_const_lo lo hi x hlo) n]
+    have : ¬ (lo ≤ x ∧ x ≤ hi) := fun h => absurd h.1 (not_le.mpr hlo)
+    rw [if_neg this]
+    match n with
+    | 0 => rfl
+    | 1 => rfl
+    | n + 2 => rfl
+  · rcases lt_or_gt_of_ne h2 with hhi | hhi
+    · rw [iteratedDeriv_of_locally_affine _ 1 0 x (clip_locally_id lo hi x hlo hhi) n]
+      rw [if_pos ⟨le_of_lt hlo, le_of_lt hhi⟩]
+      match n with
+      | 0 => rfl
+      | 1 => rfl
+      | n + 2 => rfl
+    · rw [iteratedDeriv_of_locally_const _ x (clip_locally_const_hi lo hi x hlh hhi) n]
+      have : ¬ (lo ≤ x ∧ x ≤ hi) := fun h => absurd h.2 (not_le.mpr hhi)
+      rw [if_neg this]
+      match n with
+      | 0 => rfl
+      | 1 => rfl
+      | n + 2 => rfl
+
+/-- `rint` away from the half-integers (there every round-to-nearest rule is `⌊y + 1/2⌋`) -/
+theorem rint_nth (x : ℝ) (hx : ∀ k : ℤ, x + 1 / 2 ≠ k) (n : ℕ) :
+    iteratedDeriv n (fun y : ℝ => (⌊y + 1 / 2⌋ : ℝ)) x = dStep (⌊x + 1 / 2⌋ : ℝ) n :=
+  iteratedDeriv_of_locally_const _ x (round_locally_const x hx) n
 
 end AV.C16
